@@ -45,6 +45,56 @@ func calleeParamTypes(cc *ssa.CallCommon) []types.Type {
 	return out
 }
 
+// flagMayMatch: could this call raise the event flag (syntactic callee match only)?
+func (c *FnCtx) flagMayMatch(fl *Flag, cc *ssa.CallCommon) bool {
+	var names []string
+	if sc := cc.StaticCallee(); sc != nil {
+		names = shortFuncName(sc)
+	}
+	for _, alt := range strings.Split(fl.callee, "|") {
+		alt = strings.TrimSpace(alt)
+		if !cc.IsInvoke() {
+			for _, v := range c.names[alt] {
+				if v == cc.Value {
+					return true
+				}
+			}
+			if ld, ok := cc.Value.(*ssa.UnOp); ok {
+				for _, v := range c.addrNames[alt] {
+					if v == ld.X {
+						return true
+					}
+				}
+			}
+		}
+		for _, n := range names {
+			if n == alt {
+				return true
+			}
+		}
+		if cc.IsInvoke() {
+			if i := strings.LastIndex(alt, "."); i > 0 && alt[i+1:] == cc.Method.Name() {
+				return true
+			}
+		}
+	}
+	return false
+}
+
+// flagTouchedIn: some call inside the loop may raise the flag.
+func (c *FnCtx) flagTouchedIn(fl *Flag, li *loopInfo) bool {
+	for b := range li.blocks {
+		for _, ins := range b.Instrs {
+			if ci, ok := ins.(ssa.CallInstruction); ok {
+				if c.flagMayMatch(fl, ci.Common()) {
+					return true
+				}
+			}
+		}
+	}
+	return false
+}
+
 func (c *FnCtx) eventCall(st *State, ins ssa.Instruction, cc *ssa.CallCommon) map[int]Term {
 	if c.dry || len(c.flags) == 0 {
 		return nil
@@ -182,11 +232,37 @@ func (c *FnCtx) eventRet(st *State, conds map[int]Term, v ssa.Value) {
 	}
 }
 
+// ifaceSpec finds a contract written on the (possibly generic) interface method invoked by cc.
+func (c *FnCtx) ifaceSpec(cc *ssa.CallCommon) *FuncSpec {
+	if c.specs == nil || !cc.IsInvoke() {
+		return nil
+	}
+	n, ok := types.Unalias(cc.Value.Type()).(*types.Named)
+	if !ok || n.Obj().Pkg() == nil {
+		return nil
+	}
+	return c.specs.funcs[n.Obj().Pkg().Path()+"#"+n.Obj().Name()+"."+cc.Method.Name()]
+}
+
 func (c *FnCtx) specOf(f *ssa.Function) *FuncSpec {
+	if f != nil && f.Origin() != nil {
+		f = f.Origin() // instance of a generic function: the contract is written on the generic declaration
+	}
 	if c.specs == nil || f == nil || f.Pkg == nil {
 		return nil
 	}
-	for _, n := range shortFuncName(f)[:min(2, len(shortFuncName(f)))] {
+	names := shortFuncName(f)[:min(2, len(shortFuncName(f)))]
+	if f.Signature.Recv() != nil && len(names) == 2 {
+		// a method binds to `Type.Method`; the bare name only when no package-level
+		// function of that name exists (else the contract belongs to that function)
+		if s := c.specs.funcs[f.Pkg.Pkg.Path()+"#"+names[1]]; s != nil {
+			return s
+		}
+		if f.Pkg.Func(names[0]) != nil {
+			return nil
+		}
+	}
+	for _, n := range names {
 		if s := c.specs.funcs[f.Pkg.Pkg.Path()+"#"+n]; s != nil {
 			return s
 		}
@@ -269,8 +345,50 @@ func (c *FnCtx) doCallInner(st *State, v ssa.Value, cc *ssa.CallCommon, ins ssa.
 			c.setResult(v, c.asResult(r, resT))
 			return
 		}
+		if sp := c.ifaceSpec(cc); sp != nil && sp.pure && len(sp.requires) == 0 {
+			// assumed: a deterministic, side-effect-free function of receiver and arguments
+			args := []*Val{recv}
+			for _, a := range cc.Args {
+				args = append(args, c.val(st, a))
+			}
+			full := "(" + typeKey(cc.Value.Type()) + ")." + m.Name()
+			c.trusted["assumed interface-method contract: "+sp.pkg+"."+sp.name+" (pure)"] = true
+			r := c.applyPure(st, full, m.Type().(*types.Signature), cc.Value.Type(), args)
+			c.setResult(v, c.asResult(r, resT))
+			return
+		}
+		if sp := c.ifaceSpec(cc); sp != nil && sp.hasModifies && len(sp.modifies) == 0 && len(sp.requires) == 0 {
+			// assumed contract on the interface method: no pre-existing object changes
+			c.trusted["assumed interface-method contract: "+sp.pkg+"."+sp.name+" (modifies nothing)"] = true
+			nr := c.fresh("nextref", "Int")
+			c.assume(app("<=", st.nextRef, nr))
+			st.nextRef = nr
+			if v != nil {
+				c.setResult(v, c.freshOf(st, resT, name))
+			}
+			return
+		}
 		fallback("invoke")
 		return
+	}
+	if mc, ok := cc.Value.(*ssa.MakeClosure); ok && !cc.IsInvoke() {
+		// function literal called where it is created: execute its body in place
+		var cargs []*Val
+		for _, a := range cc.Args {
+			cargs = append(cargs, c.val(st, a))
+		}
+		if rs, ok := c.inlineClosureCall(st, mc, cargs); ok {
+			if v != nil {
+				switch len(rs) {
+				case 0:
+				case 1:
+					c.setResult(v, c.asResult(rs[0], resT))
+				default:
+					c.regs[v] = &Val{T: resT, S: "", Tup: rs}
+				}
+			}
+			return
+		}
 	}
 	callee := cc.StaticCallee()
 	if callee == nil {
@@ -760,7 +878,12 @@ func (c *FnCtx) appendAtAxioms(nh, h Term, hs string, res, s Term, added func(k 
 	atN := func(x, i Term) Term { return c.at(nh, hs, x, i) }
 	atO := func(x, i Term) Term { return c.at(h, hs, x, i) }
 	// prefix
-	c.assume(fmt.Sprintf("(forall ((i Int)) (! (=> (and (<= 0 i) (< i (s_len %s))) (= %s %s)) :pattern (%s)))", s, atN(res, "i"), atO(s, "i"), atN(res, "i")))
+	if c.spec != nil && c.spec.options["append_both"] {
+		// also instantiate from the OLD slice's elements (needed to carry `exists k :: s[k] == x` across an append)
+		c.assume(fmt.Sprintf("(forall ((i Int)) (! (=> (and (<= 0 i) (< i (s_len %s))) (= %s %s)) :pattern (%s) :pattern (%s)))", s, atN(res, "i"), atO(s, "i"), atN(res, "i"), atO(s, "i")))
+	} else {
+		c.assume(fmt.Sprintf("(forall ((i Int)) (! (=> (and (<= 0 i) (< i (s_len %s))) (= %s %s)) :pattern (%s)))", s, atN(res, "i"), atO(s, "i"), atN(res, "i")))
+	}
 	// added elements
 	if elems != nil {
 		for k, e := range elems {
